@@ -101,8 +101,9 @@ func (g grp[E, S]) exec(x *engine.X, c cfg) {
 	}
 	tag := c.tag()
 	var pks [][]byte
+	raised := new(bool)
 	for si, seed := range seeds() {
-		st := newSite(tag, fmt.Sprintf("%s/%s/%s/ids=%s/seed=%d", tag, g.name, c.e.Name, c.ids.Name, seed), c.e.P)
+		st := newSite(tag, fmt.Sprintf("%s/%s/%s/ids=%s/seed=%d", tag, g.name, c.e.Name, c.ids.Name, seed), c.e.P, raised)
 		x.Case(st.where)
 		shards, err := g.rounds(c, ids, ac, seed)
 		if err != nil {
@@ -156,7 +157,7 @@ func (g grp[E, S]) exec(x *engine.X, c cfg) {
 		}
 	}
 	if len(pks) == 2 && pks[0] != nil && bytes.Equal(pks[0], pks[1]) {
-		newSite(tag, fmt.Sprintf("%s/%s/%s/ids=%s", tag, g.name, c.e.Name, c.ids.Name), c.e.P).failf(x, "seeds/same-pk", "two runs with different seeds produced the same public key %x", pks[0])
+		newSite(tag, fmt.Sprintf("%s/%s/%s/ids=%s", tag, g.name, c.e.Name, c.ids.Name), c.e.P, raised).failf(x, "seeds/same-pk", "two runs with different seeds produced the same public key %x", pks[0])
 	}
 }
 
@@ -326,8 +327,9 @@ func TestCheck(t *testing.T) {
 		for _, e := range dealStructs {
 			deal = append(deal, gc{gK256, cfg{kg: "dealer", e: e, ids: ord(e.P.N), sign: 1}})
 		}
-		explore("structures/k256/dkg", dkg, engine.Opts{Budget: engine.Budget(3*time.Minute, 25*time.Minute)})
-		explore("structures/k256/dealer", deal, engine.Opts{Budget: engine.Budget(2*time.Minute, 15*time.Minute)})
+		// MaxFails: the dummy-party CNFs (keyCNFDummy) each fail once; they must not stop the section
+		explore("structures/k256/dkg", dkg, engine.Opts{MaxFails: 100000, Budget: engine.Budget(5*time.Minute, 30*time.Minute)})
+		explore("structures/k256/dealer", deal, engine.Opts{MaxFails: 100000, Budget: engine.Budget(5*time.Minute, 30*time.Minute)})
 	}
 
 	// (2) groups x compilers on T(2,3)
@@ -340,7 +342,7 @@ func TestCheck(t *testing.T) {
 				l = append(l, gc{g, k})
 			}
 		}
-		explore("groups-x-compilers/T(2,3)", l, engine.Opts{Budget: engine.Budget(3*time.Minute, 10*time.Minute)})
+		explore("groups-x-compilers/T(2,3)", l, engine.Opts{Budget: engine.Budget(5*time.Minute, 15*time.Minute)})
 	}
 
 	// (3) identifier assignments
@@ -362,7 +364,7 @@ func TestCheck(t *testing.T) {
 				}
 			}
 		}
-		explore("id-assignments/k256", l, engine.Opts{Budget: engine.Budget(2*time.Minute, 10*time.Minute)})
+		explore("id-assignments/k256", l, engine.Opts{Budget: engine.Budget(4*time.Minute, 15*time.Minute)})
 	}
 
 	// (4) the networked runners on the slices (2) and (3), compared with the round-by-round run
@@ -372,6 +374,9 @@ func TestCheck(t *testing.T) {
 			for _, k := range kgcs {
 				if k.kg == "dealer" {
 					continue
+				}
+				if k.kg == "gennaro" && k.nic != fs && g.Name() != "k256" && !engine.Thorough() {
+					continue // quick: the two Fischlin compilers go over the runners on k256 only (they cost ~10x); thorough: all 7 groups
 				}
 				k.e, k.ids, k.runner = t23, ord(3), true
 				l = append(l, gc{g, k})
@@ -388,7 +393,7 @@ func TestCheck(t *testing.T) {
 				}
 			}
 		}
-		explore("runner-vs-rounds", l, engine.Opts{Serial: true, Procs: 8, CrashTrace: true, Engine: "SCHED", Budget: engine.Budget(3*time.Minute, 15*time.Minute)})
+		explore("runner-vs-rounds", l, engine.Opts{Serial: true, Procs: 16, CrashTrace: true, Engine: "SCHED", Budget: engine.Budget(5*time.Minute, 30*time.Minute)})
 	}
 
 	// (5) Lindell17
